@@ -432,6 +432,19 @@ func r13e(c *an.Ctx) {
 			}
 		}
 	})
+	// the equality that decides "same endpoint" compares the stored endpoint and the candidate as they are:
+	// neither operand may pass through a host-erasing conversion
+	for _, ci := range an.CallsNamed(fn, "core/task/channel.EndpointEquals") {
+		for i, a := range ci.Common().Args {
+			if call, isCall := an.Strip(a).(*ssa.Call); isCall {
+				if m := an.MethodName(&call.Call); m == "ToBoundEndpoint" || m == "ToTargetEndpoint" {
+					ok = false
+					c.Ob("(*core/task.Manager).configureTasks|alias-equality-operands", ci.Pos(), false,
+						"operand %d of the global-alias equality test is converted with %s before the comparison: two endpoints on different hosts with the same port and transport then count as the same endpoint and the conflict is not rejected", i+1, m)
+				}
+			}
+		}
+	}
 	// the lookup is only done for keys with the "::" prefix
 	pref := false
 	for _, ci := range an.CallsNamed(fn, "strings.HasPrefix") {
